@@ -1,0 +1,18 @@
+//go:build verif
+// +build verif
+
+package gossip
+
+import "github.com/hashicorp/memberlist"
+
+// Observation points for the runtime monitors in /verif (build tag "verif" only).
+
+// VerifRoute returns the routing decision the agent takes for a message coming from src.
+func (a *Agent) VerifRoute(src *Peer) []*memberlist.Node {
+	return a.route(src)
+}
+
+// VerifTopology exposes the agent's view of the network.
+func (a *Agent) VerifTopology() *Topology {
+	return a.topology
+}
